@@ -41,8 +41,13 @@ Rule3s(r2)   == {<<>>, <<Rule("#r3", <<R("#r1"), R("#r1")>>, <<>>, IF r2.id = "#
 (* signing between the first two rules: none, #r2 signed by #r1, #r1 signed by #r2 *)
 Signed(r1, r2) == {<<r1, r2>>} \cup (IF r2.id = "#r2" THEN {<<r1, [r2 EXCEPT !.sign = <<"#r1">>]>>,
                                                               <<[r1 EXCEPT !.sign = <<"#r2">>], r2>>} ELSE {})
-WfFamily == UNION {UNION {UNION {{pr \o r3 : r3 \in Rule3s(r2)} : pr \in Signed(r1, r2)}
-                          : r2 \in Rule2New(r1) \cup Rule2Redef} : r1 \in Rule1s}
+(* two definitions of #r1 with signers of their own (alternatives): either one signed by #r3 *)
+RedefSigned(s) == IF Len(s) = 3 /\ s[2].id = "#r1" /\ s[1].sign = <<>>
+                  THEN {s, <<[s[1] EXCEPT !.sign = <<"#r3">>], s[2], s[3]>>, <<s[1], [s[2] EXCEPT !.sign = <<"#r3">>], s[3]>>}
+                  ELSE {s}
+WfFamily == UNION {RedefSigned(s) : s \in
+              UNION {UNION {UNION {{pr \o r3 : r3 \in Rule3s(r2)} : pr \in Signed(r1, r2)}
+                            : r2 \in Rule2New(r1) \cup Rule2Redef} : r1 \in Rule1s}}
 
 (* ---- possibly ill-formed family ---- *)
 BadNames == {<<i>> : i \in {Lit("a"), P("x"), R("#r1"), R("#r2"), R("#_k"), R("#zz")}}
